@@ -145,6 +145,16 @@ func (vc *FuncVC) execCall(s *State, cc *ssa.CallCommon, site ssa.Instruction, p
 	ckey := ""
 	if dc, ok := vc.eng.specs.Contracts["dyncall "+vc.key+"."+vc.dynName(cc.Value)]; ok {
 		c, ckey = dc, "dyncall "+vc.key+"."+vc.dynName(cc.Value)
+		if dc.Satisfies != "" { // "dyncall f.x satisfies <shared dyncall contract>"
+			if tc, ok := vc.eng.specs.Contracts["dyncall "+dc.Satisfies]; ok {
+				c, ckey = tc, "dyncall "+dc.Satisfies
+			} else {
+				vc.specErrors = append(vc.specErrors, ckey+" satisfies unknown dyncall "+dc.Satisfies)
+			}
+		}
+	} else if dc, ok := vc.eng.specs.Contracts["dyncall "+vc.key+".*"]; ok && dc.Satisfies != "" && vc.eng.specs.Contracts["dyncall "+dc.Satisfies] != nil {
+		// "dyncall f.* satisfies X": every call of a func value in f not named otherwise
+		c, ckey = vc.eng.specs.Contracts["dyncall "+dc.Satisfies], "dyncall "+dc.Satisfies
 	} else if dc, ok := vc.eng.specs.Contracts["dyncall default"]; ok {
 		c, ckey = dc, "dyncall default"
 	}
@@ -272,13 +282,18 @@ func (vc *FuncVC) applyContract(s *State, cl *callee, ord int, site ssa.Instruct
 	if vc.cur.c != nil {
 		ss = vc.cur.c.Sites[siteKey]
 		if ss == nil {
+			if w := vc.cur.c.Sites[fmt.Sprintf("call %s#*", cl.name)]; w != nil {
+				ss, siteKey = w, fmt.Sprintf("call %s#*", cl.name)
+			}
+		}
+		if ss == nil {
 			// allow a dot-boundary suffix of the callee name: "call Database.SetInbox#1"
 			for k, v := range vc.cur.c.Sites {
-				if !strings.HasPrefix(k, "call ") || !strings.HasSuffix(k, fmt.Sprintf("#%d", ord)) {
+				short, ok := siteShort(k, ord)
+				if !ok {
 					continue
 				}
-				short := strings.TrimSuffix(strings.TrimPrefix(k, "call "), fmt.Sprintf("#%d", ord))
-				if strings.HasSuffix(cl.name, "."+short) || strings.HasSuffix(cl.name, "/"+short) {
+				if strings.HasSuffix(cl.name, "."+short) || strings.HasSuffix(cl.name, "/"+short) || (strings.HasSuffix(short, ".*") && strings.HasPrefix(cl.name, strings.TrimSuffix(short, "*"))) {
 					ss = v
 					siteKey = k
 				}
@@ -354,6 +369,13 @@ func (vc *FuncVC) applyContract(s *State, cl *callee, ord int, site ssa.Instruct
 		vc.bindFreeVarsCaller(e, s, cl.fn, cl.clo)
 	}
 	vc.addCallVars(e, cl)
+	for _, l := range c.Lets { // the callee's entry-state definitions, evaluated in the pre-call state
+		t := vc.tr(e, l.E)
+		got := t.GoT
+		t = vc.nameTerm(t, "let_"+l.Name)
+		t.GoT = got
+		e.vars[l.Name] = t
+	}
 	mname := lastSeg(cl.name)
 	e.vars["$method"] = strLit(mname)
 	e.vars["$prop"] = strLit(strings.TrimPrefix(strings.TrimPrefix(mname, "Get"), "Set"))
@@ -473,11 +495,11 @@ func (vc *FuncVC) siteAssumes(s *State, cl *callee, ord int, pos token.Pos) {
 		return
 	}
 	for k, ss := range vc.cur.c.Sites {
-		if !strings.HasPrefix(k, "call ") || !strings.HasSuffix(k, fmt.Sprintf("#%d", ord)) {
+		short, ok := siteShort(k, ord)
+		if !ok {
 			continue
 		}
-		short := strings.TrimSuffix(strings.TrimPrefix(k, "call "), fmt.Sprintf("#%d", ord))
-		if short != cl.name && !strings.HasSuffix(cl.name, "."+short) && !strings.HasSuffix(cl.name, "/"+short) {
+		if short != cl.name && !strings.HasSuffix(cl.name, "."+short) && !strings.HasSuffix(cl.name, "/"+short) && !(strings.HasSuffix(short, ".*") && strings.HasPrefix(cl.name, strings.TrimSuffix(short, "*"))) {
 			continue
 		}
 		ce := vc.callerEnv(s, pos)
@@ -532,8 +554,36 @@ func (vc *FuncVC) siteClauses(s *State, pre *State, ss *SiteSpec, siteKey string
 
 func (vc *FuncVC) callerEnv(s *State, pos token.Pos) *env {
 	e := vc.newEnv(s, vc.entry, pos)
+	if vc.curBlock != nil {
+		// "$ri": index of the innermost enclosing range-over-slice loop
+		var best *loopInfo
+		// (blocks that leave the loop by returning are not part of the natural loop: use dominance)
+		for _, li := range vc.cur.loops {
+			if vc.rangeIndexAlloc(li) != nil && li.header.Dominates(vc.curBlock) && (best == nil || best.header.Dominates(li.header)) {
+				best = li
+			}
+		}
+		if best != nil {
+			vc.bindRangeIndex(e, best, s)
+		}
+	}
 	vc.bindFreeVars(e, s, vc.fn, func(fv *ssa.FreeVar) Term { return vc.regs[fv] })
 	return e
+}
+
+// siteShort: the callee part of a site key "call <callee>#<ord>" ("#*" matches every ordinal).
+func siteShort(k string, ord int) (string, bool) {
+	if !strings.HasPrefix(k, "call ") {
+		return "", false
+	}
+	k = strings.TrimPrefix(k, "call ")
+	if suf := fmt.Sprintf("#%d", ord); strings.HasSuffix(k, suf) {
+		return strings.TrimSuffix(k, suf), true
+	}
+	if strings.HasSuffix(k, "#*") {
+		return strings.TrimSuffix(k, "#*"), true
+	}
+	return "", false
 }
 
 func lastSeg(s string) string {
